@@ -877,6 +877,279 @@ func c17CollectionN(r *hx.Rng, big bool, names0 []string) c17Input {
 	return in
 }
 
+// ---------- colliding (group, benchmark) labels ----------
+//
+// Two groups of which one extends the other after a separator ("pkg:example.com/codec"
+// and "pkg:example.com/codec/JSON"), and a sub-benchmark in the shorter one
+// ("JSON/Marshal") next to the plain name ("Marshal") in the longer one: the
+// pairs (group, benchmark) are distinct although group + sep + benchmark is the
+// same string.  Every such pair is a benchmark of its own: its own row in every
+// table, its own cell statistics, its own term in the geomean.  Sometimes a
+// chain of three groups; the separator is mostly "/" (also "", ":", "-", ".").
+
+// c17CollideLabels reports whether two distinct (group, benchmark) pairs of the
+// collection give the same string group + sep + benchmark, for the separators
+// the stream uses (input predicate, for the distribution counts only).
+func c17CollideLabels(c *benchstat.Collection) (rows int, seps map[string]bool) {
+	seps = map[string]bool{}
+	for _, sep := range []string{"/", "", ":", "-", ".", " "} {
+		seen := map[string]int{}
+		for _, g := range c.Groups {
+			for _, b := range c.Benchmarks[g] {
+				seen[g+sep+b]++
+			}
+		}
+		for _, g := range c.Groups {
+			for _, b := range c.Benchmarks[g] {
+				if seen[g+sep+b] > 1 {
+					seps[sep] = true
+					if sep == "/" {
+						rows++
+					}
+				}
+			}
+		}
+	}
+	return
+}
+
+func c17Collide(r *hx.Rng, names0 []string) c17Input {
+	var in c17Input
+	in.Test = []string{"nil", "utest", "utest", "ttest", "nodelta", "custom1", "custom2"}[r.Intn(7)]
+	in.Alpha = []float64{0, 0, 0.05, 0.01, 0.5, 1, 0.2}[r.Intn(7)]
+	in.AlphaS = c17Fmt(in.Alpha)
+	in.Order = []string{"nil", "nil", "nil", "name", "delta", "rname", "rdelta", "rrname", "rrdelta"}[r.Intn(9)]
+	in.GeoMean = r.Chance(0.55)
+	in.NoRange = r.Bool()
+	// the label that carries the group: a file label ("pkg: ..." line, alone or
+	// after goos), another file label, or a label only AddResults can supply
+	lab := "pkg"
+	resultsOnly := false
+	switch r.Intn(8) {
+	case 0, 1, 2:
+		in.SplitBy = []string{"pkg"}
+	case 3:
+		in.SplitBy = []string{"goos", "pkg"}
+	case 4:
+		lab = "branch"
+		in.SplitBy = []string{"branch"}
+	case 5:
+		lab = "branch"
+		in.SplitBy = []string{"pkg", "branch"}
+	case 6:
+		in.SplitBy = []string{"pkg", "missing"}
+	default:
+		lab = "suite"
+		in.SplitBy = []string{"suite"}
+		resultsOnly = true // handed over as a NAME label of hand-made results
+	}
+	sep := "/"
+	if r.Chance(0.2) {
+		sep = []string{"", ":", "-", "."}[r.Intn(4)]
+	}
+	base := []string{"example.com/codec", "enc", "a/b", "x", "golang.org/x/perf/benchstat", "Enc"}[r.Intn(6)]
+	segs := []string{"JSON", "v2", "Gob", "sub", "n=10", "XML"}
+	leafs := []string{"Marshal", "Marshal-8", "Encode/big", "n=10", "Unmarshal", "A"}
+	depth := 2
+	if r.Chance(0.25) {
+		depth = 3
+	}
+	// group values base, base+sep+s1, base+sep+s1+sep+s2
+	s1, s2 := segs[r.Intn(len(segs))], segs[r.Intn(len(segs))]
+	gvals := []string{base, base + sep + s1, base + sep + s1 + sep + s2}[:depth]
+	nleaf := r.Range(1, 2)
+	type gb struct{ g, b string }
+	var labels []gb
+	for li := 0; li < nleaf; li++ {
+		leaf := leafs[r.Intn(len(leafs))]
+		// the same concatenation in every group of the chain
+		suff := []string{s1 + sep + leaf, leaf}
+		if depth == 3 {
+			suff = []string{s1 + sep + s2 + sep + leaf, s2 + sep + leaf, leaf}
+		}
+		for gi, g := range gvals {
+			if depth == 3 && r.Chance(0.15) {
+				continue // only two of the three collide
+			}
+			labels = append(labels, gb{g, suff[gi]})
+		}
+	}
+	// bystanders: plain names, some shared by the groups (legitimately equal
+	// names in different groups), some of them only in one
+	for k, nby := 0, r.Range(0, 3); k < nby; k++ {
+		n := []string{"Fib", "Sort-8", "Plain", "Marshal", "JSON", "Z/z"}[r.Intn(6)]
+		for _, g := range gvals {
+			if r.Chance(0.6) {
+				labels = append(labels, gb{g, n})
+			}
+		}
+	}
+	if r.Chance(0.2) {
+		labels = append(labels, gb{"other", "Marshal"})
+	}
+	// order of first appearance: shorter group first, longer first, or mixed
+	switch r.Intn(3) {
+	case 0:
+		for i, j := 0, len(labels)-1; i < j; i, j = i+1, j-1 {
+			labels[i], labels[j] = labels[j], labels[i]
+		}
+	case 1:
+		for i := len(labels) - 1; i > 0; i-- {
+			j := r.Intn(i + 1)
+			labels[i], labels[j] = labels[j], labels[i]
+		}
+	}
+	// drop accidental duplicates of a (group, benchmark) pair
+	{
+		seen := map[gb]bool{}
+		var u []gb
+		for _, l := range labels {
+			if !seen[l] {
+				seen[l] = true
+				u = append(u, l)
+			}
+		}
+		labels = u
+	}
+	nu := r.Range(1, 2)
+	units := []string{[]string{"ns/op", "MB/s", "B/op", "widgets", "allocs/op"}[r.Intn(5)], []string{"B/op", "x-MB/s", "ns/GC"}[r.Intn(3)]}[:nu]
+	// every label its own level, so that merged samples, a row taken from the
+	// wrong pair or a term missing from the geomean all show
+	type lu struct {
+		l gb
+		u string
+	}
+	level := map[lu]float64{}
+	for _, l := range labels {
+		for _, u := range units {
+			level[lu{l, u}] = float64(r.Range(2, 900)) * []float64{1, 1, 10, 0.5, 1000}[r.Intn(5)]
+		}
+	}
+	nconf := []int{1, 2, 2, 2, 2, 3, 3, 4}[r.Intn(8)]
+	confNames := []string{"old.txt", "new.txt", "third", "dir/fourth.txt"}
+	if names0 != nil {
+		nconf, confNames = len(names0), names0
+	}
+	for ci := 0; ci < nconf; ci++ {
+		cf := c17Config{Name: confNames[ci], Mode: []string{"text", "file", "results"}[r.Intn(3)]}
+		if resultsOnly {
+			cf.Mode = "results"
+		}
+		shift := 1.0
+		if ci > 0 {
+			shift = []float64{1, 0.9, 1.1, 0.5, 2, 1.001, 0.97}[r.Intn(7)]
+		}
+		nrun := r.Range(2, 8)
+		var here []gb
+		for _, l := range labels {
+			if r.Chance(0.93) {
+				here = append(here, l)
+			}
+		}
+		byRun := r.Bool()
+		var sb strings.Builder
+		var rs []c17Result
+		if lab != "pkg" || len(in.SplitBy) > 1 {
+			sb.WriteString("goos: linux\npkg: fixed/pkg\n")
+		}
+		cur := "\x00"
+		emit := func(l gb) {
+			if l.g != cur {
+				cur = l.g
+				sb.WriteString(lab + ": " + l.g + "\n")
+			}
+			line := "Benchmark" + l.b + " " + strconv.Itoa(r.Range(1, 1000))
+			for _, u := range units {
+				if r.Chance(0.04) {
+					continue
+				}
+				v := level[lu{l, u}] * shift * (1 + 0.04*(r.Float()-0.5))
+				if r.Chance(0.15) {
+					v = level[lu{l, u}] * shift // ties
+				}
+				if r.Chance(0.03) {
+					v *= 10 // outlier
+				}
+				line += " " + c17Fmt(v) + " " + u
+			}
+			sb.WriteString(line + "\n")
+			rs = append(rs, c17Result{Labels: map[string]string{"goos": "linux", "pkg": "fixed/pkg"},
+				NameLabels: map[string]string{lab: l.g}, Content: line})
+		}
+		if byRun {
+			for k := 0; k < nrun; k++ {
+				for _, l := range here {
+					emit(l)
+				}
+			}
+		} else {
+			for _, l := range here {
+				for k := 0; k < nrun; k++ {
+					emit(l)
+				}
+			}
+		}
+		if resultsOnly {
+			cf.Results = rs
+		} else if cf.Mode == "results" {
+			xs, _ := c17Results(c17Config{Mode: "text", Text: sb.String()})
+			for _, x := range xs {
+				cr := c17Result{Labels: map[string]string{}, NameLabels: map[string]string{}, Content: x.Content}
+				for k, v := range x.Labels {
+					cr.Labels[k] = v
+				}
+				for k, v := range x.NameLabels {
+					cr.NameLabels[k] = v
+				}
+				cf.Results = append(cf.Results, cr)
+			}
+		} else {
+			cf.Text = sb.String()
+		}
+		in.Configs = append(in.Configs, cf)
+	}
+	return in
+}
+
+// c17CollideOne runs one case of the stream and records its shape.
+func c17CollideOne(o *hx.Out, in c17Input) error {
+	c := &benchstat.Collection{SplitBy: in.SplitBy}
+	for _, cf := range in.Configs {
+		if _, err := c17AddConfig(c, cf, in.SplitBy); err != nil {
+			return err
+		}
+	}
+	rows, seps := c17CollideLabels(c)
+	o.Count("stream=collide")
+	if len(seps) > 0 {
+		o.Count("collide: distinct (group, benchmark) pairs with equal group+sep+benchmark")
+		for _, sp := range []string{"/", "", ":", "-", "."} {
+			if seps[sp] {
+				o.Count("collide: sep=" + strconv.Quote(sp))
+			}
+		}
+		shape := "configs=1"
+		switch {
+		case len(in.Configs) == 2:
+			shape = "configs=2(delta)"
+		case len(in.Configs) > 2:
+			shape = "configs>2"
+		}
+		o.Count("collide: " + shape)
+		if in.GeoMean {
+			o.Count("collide: " + shape + " geomean")
+		}
+		if in.Order != "nil" {
+			o.Count("collide: sorted")
+		}
+		o.Count("collide: split=" + strings.Join(in.SplitBy, ","))
+		if rows > 2 {
+			o.Count("collide: more than one colliding pair")
+		}
+	}
+	return c17One(o, in)
+}
+
 // ---------- sort stress: 13-40 rows, tied keys mixed with distinct ones ----------
 
 // c17Text renders one configuration: for every (pkg, benchmark) its samples.
@@ -1083,15 +1356,17 @@ func c17Threshold(r *hx.Rng) (c17Input, bool) {
 }
 
 func genC17(o *hx.Out, r *hx.Rng, tier string, replay string) error {
-	o.Rule = "collections of 1-4 configurations (same name twice allowed) built through AddConfig/AddFile/AddResults from generated benchmark text: 1-5 (or 6-24) benchmarks x 1-3 units from {ns/op, MB/s, B/op, allocs/op, x-MB/s, widgets, speed, y-ns/op, ns/GC, z-B/op, -MB/s, MB/s-x}, 1-25 runs, missing and repeated benchmarks, outliers, constant/zero/tied/negative samples (negative means on every unit), samples at +-1.3e308..1.7e308 and +-Inf among at most 20 rows, ignored and malformed lines, label changes; x {nil, UTest, TTest, NoDeltaTest, two custom tests} x alpha x SplitBy x Order (ByName, ByDelta, Reverse up to twice) x AddGeoMean; plus a sort stress stream (two configurations, 13-40 rows, rows sharing sample profiles and names repeated across packages so that keys tie, every Order) and a threshold stream (small integer samples under U/t-test with alpha on, one ulp around, and within 0.0004 of a row's unrounded p, or samples searched until p is within 0.0005 of alpha 0.05/0.01/0.1) and a history stream on ONE Collection (1-4 stages, each: add 0-6 further configurations, Tables(), then FormatText/FormatCSV/FormatHTML of those tables in a random order; 2-6 configurations whose names mostly share a directory prefix such as runs/a.txt, runs/b.txt, runs/c.txt, sometimes a name added again later; every Tables() result judged against the records added so far, collection and tables observed again after formatting). non-trivial = at least one table; distinct by input"
+	o.Rule = "collections of 1-4 configurations (same name twice allowed) built through AddConfig/AddFile/AddResults from generated benchmark text: 1-5 (or 6-24) benchmarks x 1-3 units from {ns/op, MB/s, B/op, allocs/op, x-MB/s, widgets, speed, y-ns/op, ns/GC, z-B/op, -MB/s, MB/s-x}, 1-25 runs, missing and repeated benchmarks, outliers, constant/zero/tied/negative samples (negative means on every unit), samples at +-1.3e308..1.7e308 and +-Inf among at most 20 rows, ignored and malformed lines, label changes; x {nil, UTest, TTest, NoDeltaTest, two custom tests} x alpha x SplitBy x Order (ByName, ByDelta, Reverse up to twice) x AddGeoMean; plus a sort stress stream (two configurations, 13-40 rows, rows sharing sample profiles and names repeated across packages so that keys tie, every Order) and a threshold stream (small integer samples under U/t-test with alpha on, one ulp around, and within 0.0004 of a row's unrounded p, or samples searched until p is within 0.0005 of alpha 0.05/0.01/0.1) and a history stream on ONE Collection (1-4 stages, each: add 0-6 further configurations, Tables(), then FormatText/FormatCSV/FormatHTML of those tables in a random order; 2-6 configurations whose names mostly share a directory prefix such as runs/a.txt, runs/b.txt, runs/c.txt, sometimes a name added again later; every Tables() result judged against the records added so far, collection and tables observed again after formatting) and a collision stream (single reports and histories; SplitBy pkg / goos,pkg / branch / pkg,branch / pkg,missing / a name label of hand-made results; 2-3 groups of which each extends the previous one after a separator - mostly \"/\", also none, \":\", \"-\", \".\" - e.g. pkg:example.com/codec and pkg:example.com/codec/JSON, the shorter holding the sub-benchmark JSON/Marshal and the longer Marshal, so that distinct (group, benchmark) pairs have equal group+sep+benchmark strings; each pair with a sample level of its own, bystander names shared between the groups, 1-4 configurations, every Order, with and without AddGeoMean). non-trivial = at least one table; distinct by input"
 	n := 1500
 	nbig := 60
 	nsort, nthr := 40, 60
 	nhist := 220
+	ncoll, nhcoll := 260, 40
 	if tier == "thorough" {
 		n, nbig = 12000, 600
 		nsort, nthr = 1500, 1500
 		nhist = 4000
+		ncoll, nhcoll = 4000, 600
 	}
 	// fixed small cases first
 	fixed := []c17Input{
@@ -1171,6 +1446,31 @@ func genC17(o *hx.Out, r *hx.Rng, tier string, replay string) error {
 	}
 	for i := 0; i < nhist; i++ {
 		if err := c17HistOne(o, c17History(r.Split())); err != nil {
+			return err
+		}
+	}
+	// colliding (group, benchmark) labels: single reports, then histories
+	fixedColl := []c17Input{
+		{Test: "utest", Order: "nil", GeoMean: true, SplitBy: []string{"pkg"}, Configs: []c17Config{
+			{Name: "old", Mode: "text", Text: c17Text([]c17Sample{{"example.com/codec", "JSON/Marshal", "ns/op", []float64{100, 101, 102, 100, 101}}, {"example.com/codec/JSON", "Marshal", "ns/op", []float64{900, 901, 902, 900, 903}}})},
+			{Name: "new", Mode: "text", Text: c17Text([]c17Sample{{"example.com/codec", "JSON/Marshal", "ns/op", []float64{50, 51, 52, 50, 51}}, {"example.com/codec/JSON", "Marshal", "ns/op", []float64{1800, 1801, 1802, 1800, 1803}}})}}},
+		{Test: "nodelta", Order: "name", GeoMean: true, SplitBy: []string{"pkg"}, Configs: []c17Config{
+			{Name: "only", Mode: "text", Text: c17Text([]c17Sample{{"example.com/codec/JSON", "Marshal", "ns/op", []float64{900, 901, 902}}, {"example.com/codec", "JSON/Marshal", "ns/op", []float64{100, 101, 102}}, {"example.com/codec", "Marshal", "ns/op", []float64{10, 11, 12}}})}}},
+	}
+	for _, in := range fixedColl {
+		in.AlphaS = c17Fmt(in.Alpha)
+		if err := c17CollideOne(o, in); err != nil {
+			return err
+		}
+	}
+	for i := 0; i < ncoll; i++ {
+		if err := c17CollideOne(o, c17Collide(r.Split(), nil)); err != nil {
+			return err
+		}
+	}
+	for i := 0; i < nhcoll; i++ {
+		o.Count("stream=collide_history")
+		if err := c17HistOne(o, c17HistoryOf(r.Split(), true)); err != nil {
 			return err
 		}
 	}
